@@ -72,16 +72,11 @@ theorem parseLine_gat (verb : FVerb) (hv : verb = .gat ∨ verb = .gats) (e : By
 theorem parseSVerb_delete : parseSVerb (ofString "delete") = none := by simp [parseSVerb]
 theorem parseFVerb_delete : parseFVerb (ofString "delete") = none := by simp [parseFVerb]
 
-theorem parseLine_delete (k : Bytes) (nr : Bool) (rest : Bytes) (hk : validKey k = true)
-    (hnr : k ≠ ofString "noreply" ∨ nr = true) :
+theorem parseLine_delete (k : Bytes) (nr : Bool) (rest : Bytes) (hk : validKey k = true) :
     parseLine (ofString "delete" :: ([k] ++ nrToks nr)) rest = some (.delete k nr, rest) := by
-  have hs : splitNoreply ([k] ++ nrToks nr) = ([k], nr) := by
-    rcases hnr with h | rfl
-    · exact splitNoreply_nrToks _ _ (by simpa using h)
-    · exact splitNoreply_snoc [k]
   unfold parseLine
-  simp only [parseSVerb_delete, parseFVerb_delete, if_true, hs]
-  simp [hk]
+  simp only [parseSVerb_delete, parseFVerb_delete, if_true]
+  cases nr <;> simp [nrToks, hk]
 
 theorem parseLine_arith (incr : Bool) (k d : Bytes) (dv : Nat) (nr : Bool) (rest : Bytes)
     (hk : validKey k = true) (hd : parseNat d = some dv) :
